@@ -152,11 +152,13 @@ func (ref *RefExp) updateForks(fork map[*CallStm]CollectionIndex) (*RefExp, erro
 						makeCopy()
 						result.Forks[src] = unknownIndex{src: m}
 					}
-				} else if j.IndexSource() == nil && !indexEqual(i, j) {
-					errs = append(errs, &bindingError{
-						Msg: fmt.Sprint("inconsistent index ", i.GoString(), " vs ", j.GoString()),
-					})
 				}
+				// Otherwise the reference already names one specific fork.
+				// A different index for the same call statement in the
+				// context is not a contradiction: two instances of a
+				// pipeline share the call statements inside it, and an
+				// argument of one instance may refer to a fork of the
+				// other (`call SUB as B(xs = A.vals)`).
 			}
 		}
 	}
